@@ -1132,7 +1132,10 @@ def gen_dry_world(rng, tier):
     else:
         scn['options']['writeMibs'] = False
     scn['dest'] = rng.choice(['missing', 'empty', 'populated'])
-    scn['index'] = rng.random() < 0.3
+    scn['index'] = rng.random() < 0.4
+    if scn['index'] and scn['dest'] != 'missing':
+        # an index document left by earlier runs: healthy, cut short, not JSON at all, JSON of the wrong shape
+        scn['old_index'] = rng.choice(['valid', 'truncated', 'garbage', 'list', None])
     return scn
 
 
@@ -1153,6 +1156,12 @@ def run_dry_world(scn, prop):
                     # left-over bytecode in the legacy location: foreign magic / truncated header
                     with open(os.path.join(dest, n + '.pyc'), 'wb') as f:
                         f.write(b'\x03\xf3\r\n\x00\x00\x00\x00' if len(n) % 2 else b'\x00\x01')
+            if scn.get('old_index') and scn['dest'] != 'missing':
+                doc = json.dumps({'compliance': {}, 'enterprise': {'1.3.6.1.4.1.9': ['OLD-MIB']}, 'identity': {'1.3.6.1.4.1.9.1': ['OLD-MIB']}, 'meta': {}, 'oids': {'1.3.6.1.4.1.9': ['OLD-MIB']}}, indent=2)
+                body = {'valid': doc, 'truncated': doc[:len(doc) // 2], 'garbage': 'this is not an index @@@\n', 'list': '[1, 2, 3]\n'}[scn['old_index']]
+                for sfx in ('', '.json', '.py'):
+                    with open(os.path.join(dest, 'index' + sfx), 'w') as f:
+                        f.write(body)
         before = core.snapshot(root)
         writer, _ = c13.writer_for(scn['realwriter'], dest)
 
